@@ -310,3 +310,54 @@ class get_metacomments:
         want = [(n.token.encoding.replace('!!!' + KeyComment + ': ', '') if clear else n.token.encoding) for n in rest
                 if isinstance(n.token, MetacommentToken) and n.token.encoding.startswith('!!!' + KeyComment)]
         return result == want
+
+
+# ------------------------------------------------------------------------------------------------ header queries
+from kernpy.core.tokens import HeaderToken
+
+
+def mk_headed_document(g):
+    def node(e):
+        tok = e.new_any('token', [HeaderToken, SimpleToken, MetacommentToken],
+                        {'encoding': e.str_sym('encoding'), 'category': e.enum('category', TokenCategory), 'hidden': False, 'spine_id': e.int('spine_id', 0)})
+        return e.new(Node, {'id': e.int('id', 1), 'token': tok}, None)
+    rest = g.seq('preorder', node)
+    root = g.new(Node, {'id': 0, 'token': None, 'children': []}, None)
+    tree = g.new(MultistageTree, {'root': root, 'stages': []}, None)
+    doc = g.new(Document, {'tree': tree, 'measure_start_tree_stages': [], 'page_bounding_boxes': {}, 'header_stage': None}, None)
+    ghost_set('preorder', [root] + rest)
+    return doc, rest
+
+
+@contract(DOC + 'Document.get_header_nodes', props=['C17', 'C06'])
+class get_header_nodes:
+    """the header listing is the token listing restricted to the spine headers, in the order of the listing (left to right)"""
+    uses = ('dfs_summary', 'tokens_traversal_init_summary')
+    assumes = (A_PRE,)
+
+    def inputs(g):
+        doc, rest = mk_headed_document(g) if g.symbolic else native_listed_document(g)
+        return {'self': doc, '_rest': rest}
+
+    modifies = ()
+
+    def post_headers_in_listing_order(result, rest):
+        want = [n.token for n in rest if isinstance(n.token, HeaderToken)]
+        return conj(len(result) == len(want), [t.encoding for t in result] == [t.encoding for t in want],
+                    [t.spine_id for t in result] == [t.spine_id for t in want])
+
+
+@contract(DOC + 'Document.get_spine_ids', props=['C17', 'C06'])
+class get_spine_ids:
+    """the spine ids are those of the header listing, in its order"""
+    uses = ('dfs_summary', 'tokens_traversal_init_summary')
+    assumes = (A_PRE,)
+
+    def inputs(g):
+        doc, rest = mk_headed_document(g) if g.symbolic else native_listed_document(g)
+        return {'self': doc, '_rest': rest}
+
+    modifies = ()
+
+    def post_ids_of_the_headers(result, rest):
+        return result == [n.token.spine_id for n in rest if isinstance(n.token, HeaderToken)]
